@@ -25,6 +25,7 @@ func (d *Drv) Exec(op *Op, x *Exp, opIdx int) (res Result) {
 	d.newAssigned = 0
 	d.fired = d.fired[:0]
 	d.unregDuring = d.unregDuring[:0]
+	d.regDuring = d.regDuring[:0]
 	for k := range d.touched {
 		delete(d.touched, k)
 	}
